@@ -13,6 +13,7 @@ import (
 
 func main() {
 	pkgs := flag.String("pkgs", "./...", "package patterns (comma separated)")
+	reach := flag.Bool("reach", false, "cover check: list obligations whose path condition contradicts the quantifier-free hypotheses")
 	fns := flag.String("fn", "", "function keys (comma separated; short form relative to the module allowed)")
 	safety := flag.Bool("safety", false, "generate safety obligations")
 	arith := flag.Bool("arith", false, "generate overflow obligations")
@@ -103,6 +104,30 @@ func main() {
 		}
 		sm := govc.Smoke(r, *work, *timeout)
 		fmt.Printf("   smoke: %s\n", sm)
+		if *reach {
+			// cover check behind every obligation: list those whose path is excluded by the quantifier-free hypotheses
+			type rr struct{ name, st string }
+			out := make([]rr, len(r.Obls))
+			for i, o := range r.Obls {
+				i, o := i, o
+				wg.Add(1)
+				sem <- struct{}{}
+				go func() {
+					defer wg.Done()
+					defer func() { <-sem }()
+					out[i] = rr{o.Name, govc.Reachable(r, o, *work, 5)}
+				}()
+			}
+			wg.Wait()
+			n := 0
+			for _, x := range out {
+				if x.st == "unsat" {
+					n++
+					fmt.Printf("   UNREACHABLE %s\n", x.name)
+				}
+			}
+			fmt.Printf("   reach: %d of %d obligations sit on paths excluded by the quantifier-free hypotheses\n", n, len(out))
+		}
 	}
 	if bad > 0 {
 		os.Exit(1)
